@@ -388,6 +388,154 @@ def r_passthrough(ctx, resolver, funcs, names: tuple[str, ...], rule: str = 'R-P
 IMMEDIATE_CONSUMERS = {'sorted', 'min', 'max', 'map', 'filter', 'sum', 'any', 'all', 'reduce', 'groupby', 'next', 'sort'}
 
 
+def r_staleloop(ctx, funcs, rule: str = 'R-STALELOOP') -> int:
+    """A loop variable is not read after its loop has run to completion (no ``break``): there it holds the *last* element,
+    and code that wires one thing per element (a second loop over the same items, a trainer per mapper, a branch per fold)
+    silently uses the last one for all.  A read is fine once the name is bound again - by an assignment that comes before
+    it on the way, or as the target of an enclosing later loop.  Returns #loops examined."""
+    n = 0
+    for fn in funcs:
+        node = fn.node
+        for loop in [x for x in core.walk_local(node) if isinstance(x, (ast.For, ast.AsyncFor))]:
+            if any(isinstance(x, ast.Break) for x in ast.walk(loop)):
+                continue
+            names = core.names_in(loop.target)
+            # ... and so do the per-iteration locals of the body (bound nowhere but inside this loop)
+            inside_stores = {x.id for b in loop.body for x in ast.walk(b) if isinstance(x, ast.Name) and isinstance(x.ctx, ast.Store)}
+            loop_nodes = {id(x) for x in ast.walk(loop)}
+            outside_stores = {x.id for x in core.walk_local(node) if isinstance(x, ast.Name) and isinstance(x.ctx, ast.Store) and id(x) not in loop_nodes} | {a.arg for a in fn.params}
+            names |= inside_stores - outside_stores
+            names = {x for x in names if not x.startswith('_')}
+            if not names:
+                continue
+            n += 1
+            inside = {id(x) for x in ast.walk(loop)}
+            # statements that may run after the loop: later siblings on every enclosing level (not the enclosing loops themselves:
+            # a read in the next iteration before the inner loop ran again is a stale read as well, but it is also a read
+            # before the loop on the first iteration - python would raise, so it does not occur in working code)
+            later: list = []
+            cur = loop
+            while cur is not node:
+                par = core.parent(cur)
+                if par is None:
+                    break
+                for field in ('body', 'orelse', 'finalbody'):
+                    seq = getattr(par, field, None)
+                    if isinstance(seq, list) and any(x is cur for x in seq):
+                        k = next(i for i, x in enumerate(seq) if x is cur)
+                        later.append(seq[k + 1:])
+                if isinstance(par, core.FUNC):
+                    break
+                cur = par
+            for name in sorted(names):
+                stale = None
+                for seq in later:
+                    killed = False
+                    for st in seq:
+                        if killed:
+                            break
+
+                        def reads(x: ast.AST, bound: bool) -> typing.Optional[ast.AST]:
+                            """First stale read of ``name`` below x (None if none); ``bound`` - re-bound on the way."""
+                            if bound:
+                                return None
+                            if isinstance(x, (ast.For, ast.AsyncFor)):
+                                r = reads(x.iter, False)
+                                if r is not None:
+                                    return r
+                                rebinds = any(isinstance(t, ast.Name) and t.id == name for t in ast.walk(x.target))
+                                for b in x.body:
+                                    r = reads(b, rebinds)
+                                    if r is not None:
+                                        return r
+                                    if isinstance(b, ast.Assign) and any(isinstance(t, ast.Name) and t.id == name for tt in b.targets for t in ast.walk(tt)):
+                                        rebinds = True
+                                for b in x.orelse:
+                                    r = reads(b, False)
+                                    if r is not None:
+                                        return r
+                                return None
+                            if isinstance(x, (ast.ListComp, ast.SetComp, ast.GeneratorExp, ast.DictComp)):
+                                if any(isinstance(t, ast.Name) and t.id == name for g in x.generators for t in ast.walk(g.target)):
+                                    return reads(x.generators[0].iter, False)
+                            if isinstance(x, core.FUNC + (ast.Lambda,)):
+                                args = x.args
+                                if any(a.arg == name for a in list(args.args) + list(args.kwonlyargs) + list(args.posonlyargs)):
+                                    return None
+                            if isinstance(x, ast.Assign):
+                                return reads(x.value, False)
+                            if isinstance(x, ast.Name):
+                                return x if (x.id == name and isinstance(x.ctx, ast.Load)) else None
+                            seq_bound = False
+                            for c in ast.iter_child_nodes(x):
+                                r = reads(c, seq_bound)
+                                if r is not None:
+                                    return r
+                                if isinstance(c, ast.Assign) and any(isinstance(t, ast.Name) and t.id == name for tt in c.targets for t in ast.walk(tt)):
+                                    seq_bound = True
+                            return None
+
+                        hit = reads(st, False)
+                        if hit is not None:
+                            stale = hit
+                            break
+                        if isinstance(st, ast.Assign) and any(isinstance(t, ast.Name) and t.id == name for tt in st.targets for t in ast.walk(tt)):
+                            killed = True
+                    if stale is not None:
+                        break
+                ctx.check(stale is None, rule, fn, f'`{name}` is read after the loop at line {loop.lineno} ran to completion: it still holds the last element there, so whatever is built from it afterwards is built from the last item only', stale if stale is not None else loop, key=f'stale:{name}')
+    return n
+
+
+def r_itercarried(ctx, funcs, rule: str = 'R-ITERCARRIED') -> int:
+    """What a generator loop yields for one element is computed from that element: a name read by a ``yield`` inside a loop is
+    either bound outside the loop only (a constant of the run), or (re)bound in the current iteration on every path to the
+    yield - the loop target, or an unconditional statement of the loop body before it.  A name that is set before the loop
+    and *conditionally* overwritten inside carries one element's value over to the next ones.  Returns #yields examined."""
+    n = 0
+    for fn in funcs:
+        node = fn.node
+        for loop in [x for x in core.walk_local(node) if isinstance(x, (ast.For, ast.AsyncFor))]:
+            yields = [y for b in loop.body for y in core.walk_local(b) if isinstance(y, (ast.Yield, ast.YieldFrom)) and y.value is not None]
+            if not yields:
+                continue
+            targets = core.names_in(loop.target)
+            loop_nodes = {id(x) for x in ast.walk(loop)}
+            outside = {x.id for x in core.walk_local(node) if isinstance(x, ast.Name) and isinstance(x.ctx, ast.Store) and id(x) not in loop_nodes}
+            inside = {}
+            for b in loop.body:
+                for x in ast.walk(b):
+                    if isinstance(x, ast.Name) and isinstance(x.ctx, ast.Store):
+                        inside.setdefault(x.id, []).append(x)
+            for y in yields:
+                n += 1
+                ystmt = core.enclosing_stmt(y)
+                top = ystmt
+                while core.parent(top) is not loop:
+                    top = core.parent(top)
+                before = loop.body[:next(i for i, b in enumerate(loop.body) if b is top)]
+                sure = set(targets)
+                for b in before:
+                    if isinstance(b, (ast.Assign, ast.AnnAssign)):
+                        for t in (b.targets if isinstance(b, ast.Assign) else [b.target]):
+                            sure |= {x.id for x in ast.walk(t) if isinstance(x, ast.Name) and isinstance(x.ctx, ast.Store)}
+                # a store on the path inside the same branch as the yield, before it
+                cur = ystmt
+                while cur is not top:
+                    par = core.parent(cur)
+                    for field in ('body', 'orelse'):
+                        seq = getattr(par, field, None)
+                        if isinstance(seq, list) and any(x is cur for x in seq):
+                            for b in seq[:next(i for i, x in enumerate(seq) if x is cur)]:
+                                if isinstance(b, (ast.Assign, ast.AnnAssign)):
+                                    for t in (b.targets if isinstance(b, ast.Assign) else [b.target]):
+                                        sure |= {x.id for x in ast.walk(t) if isinstance(x, ast.Name) and isinstance(x.ctx, ast.Store)}
+                    cur = par
+                carried = sorted(x for x in core.names_in(y.value) if x in outside and x in inside and x not in sure)
+                ctx.check(not carried, rule, fn, f'the value yielded for one element reads {carried}, set before the loop and only conditionally overwritten inside it: it carries over from an earlier element', y, key=f'carried:{",".join(carried) or core.stmt_key(ystmt)[:40]}')
+    return n
+
+
 def r_latebind(ctx, funcs, rule: str = 'R-LATEBIND') -> int:
     """A lambda / nested function created inside a loop or comprehension must not read the iteration variable as a free
     variable when it outlives the iteration (stored, passed to a constructor, returned): python closures bind late, so
@@ -816,6 +964,36 @@ def r_fieldpos(ctx, classes, rule: str = 'R-FIELDPOS') -> int:
                 names = {x.id for x in ast.walk(a) if isinstance(x, ast.Name)}
                 crossed = sorted((names & named) - {f})
                 ctx.check(f in names and not (crossed and f not in names), rule, ci.ref, f'{ci.qual}: position {i} (field `{f}`) stores `{core.src(a)[:50]}`' + (f' - derived from `{crossed}` instead' if f not in names else ''), a, key=f'{ci.qual}:{i}:{f}')
+    return n
+
+
+PARAMFLOW_OK = {
+    'forml.io.dsl._struct.frame:Table.__new__': 'schema = Schema(schema, bases, namespace): the metaclass form builds the schema class from the three class-statement arguments',
+}
+
+
+def r_paramflow(ctx, funcs, rule: str = 'R-PARAMFLOW') -> int:
+    """A constructor keeps its parameters apart: a parameter is re-bound only from itself (normalisation such as
+    ``direction = Direction(direction)``), never from another parameter - unpacking one argument over a second one makes the
+    value the caller passed for the second one disappear.  ``PARAMFLOW_OK``: reviewed exceptions.  Returns #assignments."""
+    n = 0
+    for fn in funcs:
+        if fn.name not in ('__new__', '__init__') or len(fn.params) < 3:
+            continue
+        params = {a.arg for a in fn.params[1:]}
+        for st in core.walk_local(fn.node):
+            if not isinstance(st, ast.Assign):
+                continue
+            hit = {x.id for t in st.targets for x in ast.walk(t) if isinstance(x, ast.Name) and isinstance(x.ctx, ast.Store)} & params
+            if not hit:
+                continue
+            n += 1
+            rhs = core.names_in(st.value) & params
+            for p in sorted(hit):
+                if fn.ref in PARAMFLOW_OK:
+                    ctx.ok(rule, fn, f'{p}: {PARAMFLOW_OK[fn.ref]}', st)
+                    continue
+                ctx.check(not (rhs - {p}), rule, fn, f'parameter `{p}` is overwritten from {sorted(rhs - {p})} (`{core.src(st)[:70]}`): what the caller passed as `{p}` is dropped on that path', st, key=f'paramflow:{p}')
     return n
 
 
